@@ -43,7 +43,7 @@ def main():
     bad = []
     for (fam, _), s, i, m in zip(fams, srcs, impl, model):
         tot[fam] += 1
-        if m.startswith("UNSUPPORTED"):
+        if m.startswith("UNSUPPORTED") or m.startswith("OUTOFFUEL"):
             uns[fam] += 1
             why[m] += 1
             continue
